@@ -328,6 +328,134 @@ Proof.
   exists Y. split; [|exact HsubY]. rewrite b5, a5. unfold A1. cbn [add_rrs am_ar]. rewrite <- app_assoc. reflexivity.
 Qed.
 
+
+(* ---- positive answers: the answer RRset, then additional-section processing (all optional) *)
+
+(* the answer RRset: answer section, hinted owner, with a hint vector *)
+Lemma StA_add_an d g A h hs owner ty ttl rds : StA d g A -> hint_agrees (d_regs d) h hs -> good_name owner ->
+  Forall good_rd rds -> (ty < 65536)%N -> hs_contract (d_regs d) g hs owner ->
+  match wi_add_rrset w_iface SAn h owner ty (z_class z) ttl rds true (d_w d) with
+  | Ok (v, w') => exists d' g', StA d' g' (add_rrs A SecAnswer (map (mkAR owner (am_mode A) ty (z_class z) (ttl_rfc ttl)) rds)) /\
+               d_w d' = w' /\ Frame d g d' g' /\
+               vec_issued d' g' (length (d_regs d)) v (component_types (z_class z) ty) rds
+  | Err _ => True
+  | Panic => False
+  end.
+Proof.
+  intros HS Hh [Hn1 Hn2] Hr Hty Hc. destruct (good_rds_split _ Hr) as [Hr1 Hr2].
+  set (o := OAddRrset (sec_of SAn) hs owner ty (z_class z) ttl rds true).
+  assert (Hok : op_ok Pop o).
+  { split; [split; auto|]. split; [split; [exact Hn2|split; [exact Hty|split; [apply zc16'|exact Hr2]]]|]. split; [exact I|apply Hpop_rrset]. }
+  assert (Hoc : op_contract d g o) by (intros _; exact Hc).
+  destruct (StA_step d g A o HS Hok Hoc (stops_rrset _ _ _ _ _ _ _ _)) as (d' & r & E & HS').
+  pose proof (StA_regs_len _ _ _ HS) as L0. pose proof (StA_regs_len _ _ _ HS') as L1.
+  unfold o in E. cbn [step] in E. rewrite Hh in E. cbn [wi_add_rrset w_iface].
+  destruct (add_section_rrset (sec_of SAn) (hint_of h) owner ty (z_class z) (ttl_from ttl) rds (Some []) (d_w d)) as [[v w']|[e w']|] eqn:EA;
+    cbn [of_Mv] in E; inversion E; subst d' r; clear E; [|exact I].
+  unfold o in L1. cbn [gstep g_regs d_regs] in L1. rewrite !app_length in L1. cbn [length] in L1.
+  destruct v as [l|]; [|cbn [length] in L1; lia].
+  exists (mkD w' (d_regs d ++ [l])), (gstep d g o RUnit).
+  split; [exact HS'|]. cbn [d_w d_regs]. split; [reflexivity|]. split.
+  - unfold o. cbn [gstep]. split; [reflexivity|]. split; [exists [l]; reflexivity|cbn [g_regs]; eexists; reflexivity].
+  - unfold vec_issued, o. cbn [gstep d_regs g_regs]. split; [|split].
+    + rewrite nth_error_app2 by lia. rewrite Nat.sub_diag. reflexivity.
+    + rewrite nth_error_app2 by lia. rewrite L0, Nat.sub_diag. reflexivity.
+    + intros Hcts. apply (section_rrset_nil_v _ _ _ _ _ _ _ _ _ _ _ Hcts) in EA. inversion EA. reflexivity.
+Qed.
+
+(* the candidates of additional-section processing: the addresses of the names at [start] of every RDATA *)
+Definition rd_addrs (start : nat) (rd : bytes) : list arr :=
+  match read_name_from_rdata rd start with Ok nm => addr_rrs nm false | _ => [] end.
+
+Lemma additional_loop_A start cts r v : forall rest pre d g A, StA d g A -> am_mode A = Standard -> Forall good_rd rest ->
+  vec_issued d g r v cts (pre ++ rest) ->
+  (cts = [] \/ (one_name cts start /\ length (rds_names cts pre) = length pre)) ->
+  QSA d g A (fun A' => exists X, ArExt A A' X /\ Sub X (flat_map (rd_addrs start) rest))
+      (additional_loop w_iface z start rest (Some v) (length pre) (d_w d)).
+Proof.
+  induction rest as [|rd rest IH]; intros pre d g A HS Hm Hrds Hv Hcts; cbn [additional_loop flat_map].
+  - exists d, g, A. split; [exact HS|]. split; [reflexivity|]. split; [apply Frame_refl|]. split; [exact Hm|].
+    exists []. split; [apply ArExt_refl|constructor].
+  - inversion Hrds as [|? ? [Hrd _] Hrest]; subst.
+    pose proof (read_name_no_panic rd start) as NP. unfold rd_addrs at 1.
+    destruct (read_name_from_rdata rd start) as [nm|e|] eqn:Er; [| |congruence]; [|exact I].
+    destruct (read_name_facts _ _ _ Hrd Er) as (_ & Gn & _).
+    assert (Hslot : cts = [] \/ nth_error (rds_names cts (pre ++ rd :: rest)) (length pre) = Some nm).
+    { destruct Hcts as [Hc|[H1 Hl]]; [left; exact Hc|right].
+      rewrite rds_names_app. cbn [rds_names]. rewrite (rd_names_one _ _ _ _ Hrd H1 Er).
+      rewrite nth_error_app2 by lia. rewrite Hl, Nat.sub_diag. reflexivity. }
+    destruct (vec_hint d g r v cts _ (length pre) nm Hv Hslot) as (hs & Hh & Hc).
+    pose proof (addrs_A d g A nm _ hs false HS Hm Gn Hh Hc) as Q.
+    assert (Cont : forall d1 g1 A1 X, StA d1 g1 A1 -> Frame d g d1 g1 -> ArExt A A1 X -> Sub X (addr_rrs nm false) ->
+              QSA d g A (fun A' => exists X, ArExt A A' X /\ Sub X (addr_rrs nm false ++ flat_map (rd_addrs start) rest))
+                  (additional_loop w_iface z start rest (Some v) (S (length pre)) (d_w d1))).
+    { intros d1 g1 A1 X HS1 F1 E1 HsubX.
+      assert (Hm1 : am_mode A1 = Standard) by (destruct E1 as (Y & _); congruence).
+      replace (S (length pre)) with (length (pre ++ [rd])) by (rewrite app_length; simpl; lia).
+      assert (Hv1 : vec_issued d1 g1 r v cts ((pre ++ [rd]) ++ rest)).
+      { rewrite <- app_assoc. cbn [app]. eapply vec_issued_frame; eauto. }
+      assert (Hc1 : cts = [] \/ (one_name cts start /\ length (rds_names cts (pre ++ [rd])) = length (pre ++ [rd]))).
+      { destruct Hcts as [Hc'|[H1 Hl]]; [left; exact Hc'|right]. split; [exact H1|].
+        rewrite rds_names_app. cbn [rds_names]. rewrite (rd_names_one _ _ _ _ Hrd H1 Er).
+        rewrite !app_length. cbn [length]. lia. }
+      pose proof (IH (pre ++ [rd]) d1 g1 A1 HS1 Hm1 Hrest Hv1 Hc1) as Q2.
+      destruct (additional_loop w_iface z start rest (Some v) (length (pre ++ [rd])) (d_w d1)) as [[u w2]|[e w2]|]; cbn [QSA] in Q2 |- *; auto.
+      destruct Q2 as (d2 & g2 & A2 & HS2 & Hw2 & F2 & Hm2 & (Y & E2 & HsubY)). exists d2, g2, A2. split; [exact HS2|]. split; [exact Hw2|].
+      split; [eapply Frame_trans; eauto|]. split; [exact Hm2|]. exists (X ++ Y). split; [eapply ArExt_trans; eauto|apply Sub_app; auto]. }
+    destruct (add_additional_addresses w_iface z nm (hint_from_vec (Some v) (length pre)) false (d_w d)) as [w1|[[|] w1]|];
+      cbn [allow_truncation RSA] in Q |- *; auto.
+    + destruct Q as (d1 & g1 & A1 & HS1 & Hw1 & F1 & E1). subst w1. eapply Cont; eauto. apply Sub_refl.
+    + destruct Q as (d1 & g1 & A1 & Y & Z & HS1 & Hw1 & F1 & E1 & EX). subst w1. eapply Cont; eauto. rewrite EX. apply Sub_prefix.
+    + exact I.
+Qed.
+
+Definition addl_rrs (ty : N) (rds : list bytes) : list arr :=
+  if negb (existsb (N.eqb (z_class z)) ADDITIONAL_CLASSES) then []
+  else match lookup_offset ADDITIONAL_TABLE ty with
+       | Some start => flat_map (rd_addrs start) rds
+       | None => []
+       end.
+
+Lemma additional_A ty rs r v d g A : StA d g A -> am_mode A = Standard -> Forall good_rd (snd rs) ->
+  vec_issued d g r v (component_types (z_class z) ty) (snd rs) ->
+  QSA d g A (fun A' => exists X, ArExt A A' X /\ Sub X (addl_rrs ty (snd rs)))
+      (do_additional_section_processing w_iface z ty rs (Some v) (d_w d)).
+Proof.
+  intros HS Hm Hrds Hv. unfold do_additional_section_processing, addl_rrs.
+  assert (Here : QSA d g A (fun A' => exists X, ArExt A A' X /\ Sub X []) (Ok (tt, d_w d))).
+  { exists d, g, A. split; [exact HS|]. split; [reflexivity|]. split; [apply Frame_refl|]. split; [exact Hm|].
+    exists []. split; [apply ArExt_refl|constructor]. }
+  change ADDITIONAL_CLASSES with [1%N; 3%N]. cbn [existsb]. rewrite orb_false_r.
+  destruct ((z_class z =? 1)%N || (z_class z =? 3)%N) eqn:Ec; cbn [negb]; [|exact Here].
+  destruct (lookup_offset ADDITIONAL_TABLE ty) as [start|] eqn:Eo; [|exact Here].
+  assert (Hc : (z_class z = 1 \/ z_class z = 3)%N).
+  { apply orb_prop in Ec. destruct Ec as [E|E]; apply N.eqb_eq in E; auto. }
+  apply (additional_loop_A start _ r v (snd rs) [] d g A HS Hm Hrds Hv).
+  destruct (addl_cts _ _ _ Hc Eo) as [H|H]; [left; exact H|right; split; [exact H|reflexivity]].
+Qed.
+
+Lemma found_A h hs owner ty rs d g A : StA d g A -> am_mode A = Standard -> good_name owner -> single_good Pz0 ty rs ->
+  hint_agrees (d_regs d) h hs -> hs_contract (d_regs d) g hs owner ->
+  QSA d g A (fun A' => am_an A' = am_an A ++ map (mkAR owner Standard ty (z_class z) (ttl_rfc (fst rs))) (snd rs) /\
+                       am_ns A' = am_ns A /\
+                       exists X, am_ar A' = am_ar A ++ X /\ Sub X (addl_rrs ty (snd rs)))
+      (add_found w_iface z h owner ty rs (d_w d)).
+Proof.
+  intros HS Hm Gn [HrdsP Hne] Hh Hc. destruct (Pz_split _ _ _ HrdsP) as [Hrds _]. pose proof (Pz_ty _ _ _ HrdsP Hne) as Hty.
+  unfold add_found.
+  pose proof (StA_add_an d g A h hs owner ty (fst rs) (snd rs) HS Hh Gn Hrds Hty Hc) as X.
+  destruct (wi_add_rrset w_iface SAn h owner ty (z_class z) (fst rs) (snd rs) true (d_w d)) as [[v w1]|[e w1]|];
+    cbn [lift_addv QSA]; auto.
+  destruct X as (d1 & g1 & HS1 & Hw1 & F1 & Hv). subst w1. rewrite Hm in HS1.
+  set (A1 := add_rrs A SecAnswer (map (mkAR owner Standard ty (z_class z) (ttl_rfc (fst rs))) (snd rs))) in *.
+  pose proof (additional_A ty rs (length (d_regs d)) v d1 g1 A1 HS1 Hm Hrds Hv) as Q.
+  destruct (do_additional_section_processing w_iface z ty rs (Some v) (d_w d1)) as [[u w2]|[e w2]|]; cbn [QSA] in Q |- *; auto.
+  destruct Q as (d2 & g2 & A2 & HS2 & Hw2 & F2 & Hm2 & (Y & E2 & HsubY)). exists d2, g2, A2. split; [exact HS2|]. split; [exact Hw2|].
+  split; [eapply Frame_trans; eauto|]. split; [exact Hm2|].
+  destruct E2 as (_ & _ & a3 & a4 & a5). split; [rewrite a3; reflexivity|]. split; [rewrite a4; reflexivity|].
+  exists Y. split; [rewrite a5; reflexivity|exact HsubY].
+Qed.
+
 End Glue.
 
 (* ---------------------------------------------------------------- the theorem on the octets *)
@@ -437,6 +565,93 @@ Proof.
   - inversion Hps; subst. reflexivity.
 Qed.
 
+
+(* ---- a direct positive answer: the answer RRset, no authority, and a sub-selection of the additional candidates *)
+Theorem respond_found_optional buf tcp id rd qname qtype qclass edns limit rs sos :
+  512 <= length buf -> good_name qname -> in_zone apex qname = true ->
+  (id < 65536)%N -> (qtype < 65536)%N -> (qclass < 65536)%N -> (forall s, edns = Some s -> (s < 65536)%N) ->
+  (qtype =? QTYPE_ANY)%N = false ->
+  zone_lookup z qname qtype true false = Ok (LFound rs sos) ->
+  exists w len b m,
+    prepare_w buf tcp id rd qname qtype qclass edns limit = Some w /\
+    respond_w negttl buf tcp id rd qname qtype qclass edns limit z = Some (len, b) /\
+    decode_msg (firstn len b) = Some m /\
+    match set_aa_then w_iface (add_found w_iface z QhQname qname qtype rs) w with
+    | Ok _ =>
+      exists X ds_opt ds_pseudo,
+        Forall2 (rr_rel xparts) (map (mkAR qname Standard qtype (z_class z) (ttl_rfc (fst rs))) (snd rs)) (m_an m) /\
+        m_ns m = [] /\
+        m_ar m = ds_opt ++ ds_pseudo /\
+        Forall2 (rr_rel xparts) X ds_opt /\ Sub X (addl_rrs z qtype (snd rs)) /\
+        forallb is_pseudo ds_pseudo = true
+    | _ => True
+    end.
+Proof.
+  intros Hb Gq Hz Hid Hqt Hqc Hed Hany Hlk.
+  destruct (prepare_total buf tcp id rd qname qtype qclass edns limit Hb (proj2 Gq)) as (w & Ew).
+  exists w.
+  destruct (set_aa_then w_iface (add_found w_iface z QhQname qname qtype rs) w) as [[u w1]|e|] eqn:Edr.
+  2:{ destruct (respond_w_tc reqf apex cls R z Hinv Hapex Hclass HR negttl buf tcp id rd qname qtype qclass edns limit
+                  Hb Gq Hz Hid Hqt Hqc Hed) as (len & b & m & E1 & E2 & _). exists len, b, m. auto. }
+  2:{ destruct (respond_w_tc reqf apex cls R z Hinv Hapex Hclass HR negttl buf tcp id rd qname qtype qclass edns limit
+                  Hb Gq Hz Hid Hqt Hqc Hed) as (len & b & m & E1 & E2 & _). exists len, b, m. auto. }
+  assert (Hhdr : forall o, match o with
+    | OSetId _ | OSetQr true | OSetOpcode _ | OSetRd _ | OAddQuestion _ _ _ | OSetEdns _ | OSetLimit _ => Pany o
+    | _ => True end).
+  { intros o. destruct o; try exact I. destruct b; exact I. }
+  destruct (prepare_Reach Pany Hhdr buf tcp id rd qname qtype qclass edns limit w Ew Gq Hid Hqt Hqc Hed) as (w0 & E0 & Rpre).
+  set (pre := pre_ops tcp id rd qname qtype qclass edns limit) in *.
+  set (opre := map (fun _ : wop => RUnit) pre) in *.
+  destruct (Reach_AInv Pany _ _ _ _ _ _ Rpre L0 (AInv_new _ _ _ E0)) as (Lp & Hip).
+  destruct (prepared_mode tcp id rd qname qtype qclass edns limit) as (Pm & Pan & Pns & Par). fold pre opre in Pm, Pan, Pns, Par.
+  set (Ap := areplay am0 pre opre) in *.
+  assert (Sp : StA Pany (mkD w0 []) g0 am0 (mkD w []) (g_prepared qname) Ap).
+  { exists pre, opre, Lp. split; [exact Rpre|]. split; [exact Hip|reflexivity]. }
+  destruct (zone_lookup_refines reqf apex cls z R qname qtype true false Hinv (fun _ => Hz)) as (r & Hzl & Hs).
+  rewrite Hlk in Hzl. inversion Hzl; subst r.
+  pose proof (spec_lookup_good reqf apex cls R (Pz (fun _ _ => True)) HR _ _ _ _ _ Hs) as G. cbn [lookup_good] in G.
+  (* set_aa(true): one more header step, the abstract message does not move *)
+  unfold set_aa_then in Edr.
+  destruct (StA_step cls Hclass Pany (mkD w0 []) g0 am0 (mkD w []) (g_prepared qname) Ap (OSetAa true) Sp) as (d1 & r1 & T1 & S1);
+    [repeat split; exact I|exact I|reflexivity|].
+  cbn [step d_w] in T1. cbn [wi_set_aa w_iface] in Edr.
+  pose proof (w_modify_no_err w AA_BYTE (set_bit AA_MASK true)) as NE. unfold set_aa, w_set_flag in *.
+  destruct (w_modify w AA_BYTE (set_bit AA_MASK true)) as [wa|e|] eqn:Ea; cbn [of_R] in T1; [|exfalso; eapply NE; reflexivity|discriminate].
+  inversion T1; subst d1 r1. clear T1. cbn [lift_set gstep astep d_regs] in *.
+  pose proof (found_A reqf apex cls R z Hinv HR Hclass Pany (fun _ _ _ _ _ _ _ _ => I) (mkD w0 []) g0 am0
+                QhQname HsQname qname qtype rs (mkD wa []) (g_prepared qname) Ap S1 Pm Gq G eq_refl) as Q.
+  cbn [d_w] in Q. rewrite Edr in Q.
+  assert (Hcq : hs_contract (d_regs (mkD wa [])) (g_prepared qname) HsQname qname).
+  { cbn [hs_contract g_prepared g_q]. intros m Hm. inversion Hm; subst. apply name_eq_refl. }
+  specialize (Q Hcq). cbn [QSA] in Q.
+  destruct Q as (d3 & g3 & A3 & (ops & outs & L & Rall & Hi & HA) & Hw3 & _ & Hm3 & Han & Hns & (X & Har & HsubX)).
+  destruct (Reach_run Pany _ _ _ _ _ _ Rall) as (Hrun & Hrc & F1 & F2 & F3 & F4 & Hlen).
+  destruct (MsgWriterStepP.finish_ok (fun x => x) d3 g3 L Hi) as (wF & LF & EF & _).
+  exists (w_cursor wF), (w_buf wF).
+  destruct (roundtrip_full buf _ w0 ops E0 Hrc F1 F2 F3) as (rr & Err & Hrt).
+  assert (Hrr' : rr = mkRR outs (d_regs d3) (Some (w_cursor wF, w_buf wF))).
+  { unfold run_writer, run_writer_gen in Err. rewrite E0 in Err. cbn [bind] in Err. rewrite Hrun in Err. cbn [bind] in Err.
+    unfold finish in Err. rewrite EF in Err. cbn [bind] in Err. inversion Err. reflexivity. }
+  subst rr. cbn [rr_final rr_outcomes] in Hrt.
+  destruct Hrt as (m & Em & _ & _ & Hdan & Hdns & Hdar & _). rewrite <- HA in Hdan, Hdns, Hdar.
+  exists m. split; [exact Ew|]. split.
+  { unfold respond_w. rewrite Ew. unfold handle_non_axfr_query. rewrite Hany. unfold answer. rewrite Hlk. cbn [zl].
+    unfold set_aa_then. cbn [wi_set_aa w_iface]. unfold set_aa, w_set_flag. rewrite Ea. cbn [lift_set].
+    rewrite Edr. rewrite <- Hw3. unfold finish. rewrite EF. reflexivity. }
+  split; [exact Em|].
+  rewrite Han, Pan in Hdan. cbn [app] in Hdan.
+  rewrite Hns, Pns in Hdns. assert (Ens : m_ns m = []) by (inversion Hdns; reflexivity).
+  rewrite Har, Par in Hdar. cbn [app] in Hdar.
+  apply Forall2_app_inv_l in Hdar as (dop & dps & Hop & Hps & Eq).
+  exists X, dop, dps. split; [exact Hdan|]. split; [exact Ens|]. split; [exact Eq|]. split; [exact Hop|]. split; [exact HsubX|].
+  assert (Hts : h_tsig (hreplay ah0 ops outs) = None) by (apply tsig_t_replay; [exact F4|reflexivity]).
+  unfold pseudo_of in Hps. rewrite Hts, app_nil_r in Hps.
+  destruct (h_edns _) as [[uu up]|].
+  - inversion Hps as [|a dd l l' Hd Hrest']; subst. inversion Hrest'; subst.
+    destruct (opt_decoded _ _ _ _ Hd) as (_ & Ho & _). cbn [forallb]. unfold is_pseudo. rewrite Ho. reflexivity.
+  - inversion Hps; subst. reflexivity.
+Qed.
+
 End GlueTop.
 
 (* for zones built by adds *)
@@ -466,6 +681,35 @@ Theorem respond_referral_glue_build reqf apex cls wide recs z negttl buf tcp id 
 Proof.
   intros Ht Hb Hrecs Ga Hc.
   apply (respond_referral_glue reqf apex cls (accepted apex cls recs) z (ZoneTopP.build_inv reqf Ht apex cls wide recs z Hb) Ga Hc).
+  apply Forall_forall. intros r Hr. apply QueryTopP.accepted_In in Hr. rewrite Forall_forall in Hrecs.
+  destruct (Hrecs r Hr) as [A B]. split; [exact A|split; [exact B|exact I]].
+Qed.
+
+Theorem respond_found_optional_build reqf apex cls wide recs z negttl buf tcp id rd qname qtype qclass edns limit rs sos :
+  (forall c t a b d, reqf c t a b = true -> reqf c t b d = true -> reqf c t a d = true) ->
+  zone_build reqf (zone_new apex cls wide) recs = Some z ->
+  Forall (fun r => good_rd (r_rdata r) /\ (r_type r < 65536)%N) recs -> good_name apex -> (cls < 65536)%N ->
+  512 <= length buf -> good_name qname -> in_zone apex qname = true ->
+  (id < 65536)%N -> (qtype < 65536)%N -> (qclass < 65536)%N -> (forall s, edns = Some s -> (s < 65536)%N) ->
+  (qtype =? QTYPE_ANY)%N = false ->
+  zone_lookup z qname qtype true false = Ok (LFound rs sos) ->
+  exists w len b m,
+    prepare_w buf tcp id rd qname qtype qclass edns limit = Some w /\
+    respond_w negttl buf tcp id rd qname qtype qclass edns limit z = Some (len, b) /\
+    decode_msg (firstn len b) = Some m /\
+    match set_aa_then w_iface (add_found w_iface z QhQname qname qtype rs) w with
+    | Ok _ =>
+      exists X ds_opt ds_pseudo,
+        Forall2 (rr_rel xparts) (map (mkAR qname Standard qtype (z_class z) (ttl_rfc (fst rs))) (snd rs)) (m_an m) /\
+        m_ns m = [] /\
+        m_ar m = ds_opt ++ ds_pseudo /\
+        Forall2 (rr_rel xparts) X ds_opt /\ Sub X (addl_rrs z qtype (snd rs)) /\
+        forallb is_pseudo ds_pseudo = true
+    | _ => True
+    end.
+Proof.
+  intros Ht Hb Hrecs Ga Hc.
+  apply (respond_found_optional reqf apex cls (accepted apex cls recs) z (ZoneTopP.build_inv reqf Ht apex cls wide recs z Hb) Ga Hc).
   apply Forall_forall. intros r Hr. apply QueryTopP.accepted_In in Hr. rewrite Forall_forall in Hrecs.
   destruct (Hrecs r Hr) as [A B]. split; [exact A|split; [exact B|exact I]].
 Qed.
